@@ -103,6 +103,9 @@ def cases(tier):
                 for g in ("uniform", "geom"):
                     out.append(dict(kind="signal", d=dd, N=N, grid=g, method="Spline", width=1, M=1, combo="param", with_der=True))
     for order in (0, 1, 2, 3, 4):
+        for what in ("parameter", "variable"):
+            out.append(dict(kind="signal_over", order=order, what=what))
+    for order in (0, 1, 2, 3, 4):
         for meth in ("SS", "MS", "DC"):
             for N in (2, 3):
                 out.append(dict(kind="chain", order=order, method=meth, N=N, M=2 if N == 2 else 1))
@@ -299,7 +302,35 @@ def run_chain(case):
     return dict(violations=vios, evaluations=1, traces=1, transitions=k + 1, outcome=explore.sha(case), nontrivial=True, sample=case)
 
 
+def run_signal_over(case):
+    """a B-spline signal of order k has exactly k derivatives: der^j is a new signal for j<=k, der^(k+1) raises"""
+    import rockit
+    k, what = case["order"], case["what"]
+    tags = ["order=%d" % k, "bspline_%s" % what]
+    vios = []
+    ocp = rockit.Ocp(T=2)
+    x = ocp.state(); ocp.set_der(x, -x)
+    sgn = ocp.parameter(grid="bspline", order=k) if what == "parameter" else ocp.variable(grid="bspline", order=k)
+    cur = sgn
+    try:
+        for j in range(k):
+            cur = ocp.der(cur)
+    except Exception as e:
+        vios.append(dict(sig="exception:der:signal-chain", tags=tags, detail="der^%d of an order-%d B-spline %s raised %s: %s" % (j + 1, k, what, type(e).__name__, str(e)[:120])))
+        return dict(violations=vios, evaluations=1, traces=1, transitions=k, outcome="exc", nontrivial=True, sample=case)
+    for name, e_ in (("der", cur), ("expression", 2 * cur + x)):
+        try:
+            ocp.der(e_)
+            vios.append(dict(sig="accepted:der-beyond-order:signal", tags=tags, detail="der^%d of an order-%d B-spline %s (%s) did not raise" % (k + 1, k, what, name)))
+            break
+        except Exception:
+            pass
+    return dict(violations=vios, evaluations=2, traces=1, transitions=k + 1, outcome=explore.sha(case), nontrivial=True, sample=case)
+
+
 def run_case(case):
+    if case["kind"] == "signal_over":
+        return run_signal_over(case)
     if case["kind"] == "signal":
         from . import c17
         out = c17.run_signal(case)
@@ -310,6 +341,6 @@ def run_case(case):
 
 def describe(tier):
     return dict(
-        rule="(c) der and der(der) of B-spline parameters of order 1..4 sampled under SplineMethod vs the analytic spline derivative in physical time; (a) every expression AST up to depth %s over {x_0, x_1, y, t, global parameter, global variable} (unary sin/square/neg/affine, binary mul/add/sub, vector-valued) x 5 ODE models (time-dependent, two controls, no control, per-interval parameter and variable; global parameter AND variable in the rhs) x 3 generic points: ocp.der(e) = forward-mode dual-number derivative of e along (rhs, 1) computed by the reference's own arithmetic, again after the ODE is declared a second time (history: der, set_der, der); (b) controls of order 0..4 x method x N,M: der walks the chain (states, then the control), der^(k+1) raises and so does der of every expression from a 6-element alphabet containing the piecewise-constant member (with a state, with explicit time), and at a dynamically feasible point every chain member sampled with refine=4 equals the Taylor polynomial built from the higher members" % ("3" if tier == "thorough" else "2"),
+        rule="(c) der and der(der) of B-spline parameters of order 1..4 sampled under SplineMethod vs the analytic spline derivative in physical time; (a) every expression AST up to depth %s over {x_0, x_1, y, t, global parameter, global variable} (unary sin/square/neg/affine, binary mul/add/sub, vector-valued) x 5 ODE models (time-dependent, two controls, no control, per-interval parameter and variable; global parameter AND variable in the rhs) x 3 generic points: ocp.der(e) = forward-mode dual-number derivative of e along (rhs, 1) computed by the reference's own arithmetic, again after the ODE is declared a second time (history: der, set_der, der); (d) B-spline parameters / variables of order 0..4: der^(k+1) raises; (b) controls of order 0..4 x method x N,M: der walks the chain (states, then the control), der^(k+1) raises and so does der of every expression from a 6-element alphabet containing the piecewise-constant member (with a state, with explicit time), and at a dynamically feasible point every chain member sampled with refine=4 equals the Taylor polynomial built from the higher members" % ("3" if tier == "thorough" else "2"),
         bound="AST depth %d; control order <=4" % (3 if tier == "thorough" else 2),
         assumptions=["CasADi Function evaluation is trusted", "B-spline signal derivatives use the scipy oracle of C17 (SplineMethod; under sampling methods der of a signal is a recorded finding of C17)"])
